@@ -20,6 +20,8 @@ import numpy as np
 
 import finam as fm
 
+import _guard
+
 logging.disable(logging.CRITICAL)
 T0 = datetime(2000, 1, 1)
 DAY = timedelta(days=1)
@@ -78,7 +80,8 @@ def run(link, masked, where, location, work):
                 stray.append(f)
 
     cons.update = upd
-    comp.run(start_time=T0, end_time=T0 + 12 * DAY)
+    with _guard.limit(120.0):
+        comp.run(start_time=T0, end_time=T0 + 12 * DAY)
     return series, stray, npy_files(work), len(seen)
 
 
